@@ -18,7 +18,7 @@ func VerifC16Bio() {
 	ns := make([]int, k)
 	vs := make([]int, k)
 	for i := 0; i < k; i++ {
-		ns[i] = []int{1, 3, 7, 8, 9, 16}[vrt.Choice("n", 0, 5)]
+		ns[i] = []int{1, 3, 8}[vrt.Choice("n", 0, 2)]
 		vs[i] = vrt.Int("v", 0, 1<<uint(ns[i])-1)
 		bw.writeBits(vs[i], ns[i])
 	}
